@@ -48,7 +48,7 @@ def run(item):
         lines[i] = new
         open(os.path.join(d, path), 'w').write('\n'.join(lines))
         # must still compile
-        cc = subprocess.run(['clang++', '-std=gnu++20', '-fsyntax-only', '-DNDEBUG', '-DLOG_LEVEL=0', '-I', d + '/engine', '-I', '/tmp/mutscan/cfg', '-Wall', '-Wextra', '-Werror', '-Wno-unused-parameter', os.path.join(d, path)],
+        cc = subprocess.run(['clang++', '-std=gnu++20', '-fsyntax-only', '-DNDEBUG', '-DLOG_LEVEL=0', '-I', d + '/engine', '-I', '/tmp/mutscan/cfg', '-Wall', '-Wextra', '-Werror', '-Wno-unused-parameter', '-Wno-unused-private-field', '-x', 'c++', os.path.join(d, path)],
                             capture_output=True, text=True)
         if cc.returncode != 0:
             return i, kind, None, None, new
